@@ -88,6 +88,7 @@ fn main() {
             "C18" => props::c18::run(&mut ctx),
             "C19" => props::c19::run(&mut ctx),
             "ZOO" => zoo::warm(),
+            "DBG08" => props::c08::debug(&out),
             "SELFCHECK" => println!("MON-SELFCHECK-OK"),
             _ => {
                 eprintln!("unknown property {prop}");
